@@ -486,7 +486,7 @@ func decodeModes(d *decoder, deep bool, exact []byte, mask int, stage func(im in
 	fr.m, oA = measuredDecode(d, deep, exact)
 	stA := &staged{buf: exact, lo: 0, hi: len(exact)}
 	var viewA bool
-	if !oA.Panicked {
+	if !oA.Panicked && mask != 0 {
 		fr.fp, viewA, _ = fingerprint(oA.Result, stA)
 		if viewA {
 			fr.m.ViewInput = true
